@@ -226,3 +226,25 @@ def kwarg(call, name):
 
 def find_calls(node, pred):
     return [c for c in calls(node) if pred(c)]
+
+
+def namedtuple_types(trees) -> dict:
+    """class name -> field names, for collections.namedtuple(...) assignments and typing.NamedTuple classes at module level"""
+    out = {}
+    for tree in trees:
+        for node in tree.body:
+            if isinstance(node, ast.Assign) and len(node.targets) == 1 and isinstance(node.targets[0], ast.Name) and isinstance(node.value, ast.Call):
+                fn = node.value.func
+                nm = fn.id if isinstance(fn, ast.Name) else fn.attr if isinstance(fn, ast.Attribute) else ''
+                if nm == 'namedtuple' and len(node.value.args) >= 2:
+                    flds = node.value.args[1]
+                    names = None
+                    if isinstance(flds, (ast.List, ast.Tuple)) and all(isinstance(e, ast.Constant) and isinstance(e.value, str) for e in flds.elts):
+                        names = [e.value for e in flds.elts]
+                    elif isinstance(flds, ast.Constant) and isinstance(flds.value, str):
+                        names = flds.value.replace(',', ' ').split()
+                    if names:
+                        out[node.targets[0].id] = names
+            elif isinstance(node, ast.ClassDef) and any((isinstance(b, ast.Name) and b.id == 'NamedTuple') or (isinstance(b, ast.Attribute) and b.attr == 'NamedTuple') for b in node.bases):
+                out[node.name] = [st.target.id for st in node.body if isinstance(st, ast.AnnAssign) and isinstance(st.target, ast.Name)]
+    return out
